@@ -157,6 +157,26 @@ func init() {
 		fr.i.envst.log = append(fr.i.envst.log, "raymond.RemoveAllPartials")
 		return nil
 	}
+	// func NewFileVersion(fullPath string) (FileVersion, error) stats and hashes the file: the file system is
+	// environment, the stand-in identifies a file by its path (constant content, zero modification time)
+	const gastPkg = "github.com/gopher-fleece/gleece/v2/gast"
+	intrinsics[gastPkg+".NewFileVersion"] = func(fr *frame, args []value) value {
+		i := fr.i
+		pkg := i.prog.ImportedPackage(gastPkg)
+		T := pkg.Type("FileVersion").Type()
+		st := T.Underlying().(*types.Struct)
+		v := zero(T).(structure)
+		for k := 0; k < st.NumFields(); k++ {
+			switch st.Field(k).Name() {
+			case "Path":
+				v[k] = args[0]
+			case "Hash":
+				v[k] = "stand-in-hash"
+			}
+		}
+		i.envst.log = append(i.envst.log, "gast.NewFileVersion")
+		return tuple{v, iface{}}
+	}
 	intrinsics["encoding/json.MarshalIndent"] = func(fr *frame, args []value) value {
 		it := args[0].(iface)
 		fr.i.jsonFr = fr
